@@ -925,5 +925,6 @@ RULES = [
     ("C01.putback", lambda c, r: pat.shared(__import__("sa.rules.c15", fromlist=["x"]).rule_lists, "C01.putback")(c, r)),
     ("C01.self", lambda c, r: pat.shared(__import__("sa.rules.c02", fromlist=["x"]).rule_self, "C01.self")(c, r)),   # a qsbr updater that returns offline is no longer waited for
     ("C01.listtrav", lambda c, r: __import__("sa.rules.c15", fromlist=["x"]).rule_listtrav(c, r, "C01.listtrav")),   # wait_for_readers walks the registry with these macros
+    ("C01.node", lambda c, r: pat.shared(__import__("sa.rules.c02", fromlist=["x"]).rule_node, "C01.node", lambda x: "wake_all" in x["instance"] or "TEARDOWN" in x["instance"] or x["status"] != "pass")(c, r)),   # merged callers: the leader touches a waiter's stack node only until it hands it back - a stale next pointer leads into the next batch and wakes callers whose grace period has not run
 ]
 FLOORS = {}
